@@ -509,6 +509,262 @@ class C07(Property):
         return cases
 
 
+def base_valid_doc():
+    return {"settings": {"base_path": "build", "target_path": "rom.elf", "d_path": "rom.d"},
+            "vram_classes": [{"name": "cls", "fixed_vram": 0x80100000}],
+            "segments": [{"name": "boot", "fixed_vram": 0x80000400, "files": [{"path": "a.o"}], "gp_info": {"section": ".sdata"}},
+                         {"name": "ovl", "vram_class": "cls", "files": [{"path": "b.o"}, {"kind": "group", "dir": "g", "files": [{"path": "c.o"}]}]}],
+            "entry": "start",
+            "symbol_assignments": [{"name": "s1", "value": "1"}],
+            "required_symbols": [{"name": "r1"}],
+            "asserts": [{"check": "1", "error_message": "m"}]}
+
+
+def record_sites(doc):
+    """(label, record) for the nine record levels of a document"""
+    out = [("document", doc), ("settings", doc.get("settings")), ("vram_class", (doc.get("vram_classes") or [None])[0])]
+    segs = doc.get("segments") or []
+    if segs:
+        out.append(("segment", segs[0]))
+        if isinstance(segs[0].get("gp_info"), dict):
+            out.append(("gp_info", segs[0]["gp_info"]))
+        fs = list(all_files(doc))
+        if fs:
+            out.append(("file", fs[0]))
+            nested = [f for f in fs if f.get("kind") == "group" and f.get("files")]
+            if nested:
+                out.append(("file_in_group", nested[0]["files"][0]))
+    for k, lab in (("symbol_assignments", "symbol_assignment"), ("required_symbols", "required_symbol"), ("asserts", "assert")):
+        if doc.get(k):
+            out.append((lab, doc[k][0]))
+    return [(l, r) for l, r in out if isinstance(r, dict)]
+
+
+class C16(Property):
+    pid = "C16"
+    title = "rejection of invalid, acceptance of valid documents"
+    owns_errors = ("*",)
+    quick_n = 500
+    lattice_exhaustive = True
+    rule = ("the presence lattices in full: file entries {kind absent|5 kinds} x 2^8 field presences x {.o,.a,other} (4608), each field "
+            "also as null; segments 2^4 address subsets; classes 2^3 placement subsets; an unknown key at each of the 9 record levels; "
+            "every field of every record x {absent,null,value}; an empty list for each of the 4 condition fields on each of the 6 "
+            "conditional record kinds; empty names/paths/values; gp_info x hardcoded_gp_value x section membership; d_path without "
+            "target_path; plus valid-stream documents and single random mutations of them. "
+            "Non-trivial: the case differs from a valid document in exactly one rule, or is a valid document with optional features")
+
+    def profile(self, r):
+        return Profile(p_missing_key=0.0)
+
+    def tweak(self, r, c):
+        # one random mutation in half of the random cases
+        c["mut"] = None
+        if not r.chance(0.5):
+            return
+        sites = record_sites(c["doc"])
+        lab, rec = r.pick(sites)
+        kind = r.below(5)
+        keys = list(rec.keys())
+        if kind == 0:
+            rec["bogus_key"] = 1
+            c["mut"] = "unknown key in " + lab
+        elif kind == 1 and keys:
+            k = r.pick(keys)
+            rec[k] = None
+            c["mut"] = "null on %s.%s" % (lab, k)
+        elif kind == 2 and keys:
+            k = r.pick(keys)
+            del rec[k]
+            c["mut"] = "deleted %s.%s" % (lab, k)
+        elif kind == 3 and keys:
+            k = r.pick(keys)
+            v = rec[k]
+            rec[k] = [] if isinstance(v, list) else ("" if isinstance(v, str) else ({} if isinstance(v, dict) else v))
+            c["mut"] = "emptied %s.%s" % (lab, k)
+        else:
+            k = r.pick(list(COND_KEYS))
+            rec[k] = r.pick([[], None, [["a"]], [["a", "b", "c"]], "x", [["k", "v"]]])
+            c["mut"] = "cond %s.%s" % (lab, k)
+        c["stream"] = "mutated"
+
+    def nontrivial(self, c):
+        return True
+
+    def evaluate(self, w, c):
+        impl, v = w.eval(c, [self.pid])
+        res = {"impl_outcome": impl.get("outcome"), "impl_err": impl.get("err_kind"),
+               "model_outcome": v.get("model_outcome"), "model_err": v.get("model_err"), "mut": c.get("mut")}
+        if v.get("driver_crash") or "valid_spec" not in v:
+            res.update(status="corr", why="driver failed on this case")
+            return res
+        io = impl.get("outcome")
+        if io in ("panic", "abort", "timeout"):
+            res.update(status="violation", why="implementation %s while reading the document" % io)
+            return res
+        impl_accepts = io == "ok" or impl.get("stage") in ("generate", "export")
+        model_accepts = v.get("model_outcome") == "ok" or v.get("model_stage") == "generate"
+        valid = v["valid_spec"]
+        res["valid"] = valid
+        res["errkind_agree"] = v.get("errkind_agree")
+        if impl_accepts != valid:
+            res.update(status="violation", why="the implementation %s a document that the documented rules %s (%s)" % (
+                "accepts" if impl_accepts else "rejects (%s: %s)" % (impl.get("err_kind"), impl.get("err_msg")),
+                "reject" if not valid else "accept", c.get("mut") or c.get("id")))
+        elif model_accepts != impl_accepts:
+            res.update(status="corr", why="model and implementation disagree on acceptance")
+        else:
+            res.update(status="ok", why="", rejected=not impl_accepts)
+        return res
+
+    def extra_cases(self, tier):
+        import itertools
+        cases = []
+
+        def add(doc, tag):
+            cases.append({"id": "v%d" % len(cases), "seed": len(cases), "stream": "lattice:" + tag, "doc": doc, "opts": [],
+                          "mode": "normal", "version_comment": False, "mut": tag})
+        # file entries: kind x 8 field presences x extension, fields as values; plus a null sweep
+        fvals = {"path": None, "subfile": "m.o", "pad_amount": 16, "section": ".data", "linker_offset_name": "mark",
+                 "section_order": {".data": ".text"}, "files": [{"path": "in.o"}], "dir": "d"}
+        fields = list(fvals)
+        kinds = [None, "object", "archive", "pad", "linker_offset", "group"]
+        exts = ["x.o", "y.a", "z"]
+        step = 1 if tier == "thorough" else 7
+        n = 0
+        for kind in kinds:
+            for mask in range(256):
+                for ext in exts:
+                    n += 1
+                    if n % step:
+                        continue
+                    f = {}
+                    if kind:
+                        f["kind"] = kind
+                    for i, fld in enumerate(fields):
+                        if mask >> i & 1:
+                            f[fld] = ext if fld == "path" else copy.deepcopy(fvals[fld])
+                    d = base_valid_doc()
+                    d["segments"][0]["files"] = [f]
+                    add(d, "file-presence")
+        # each file field as null on each kind
+        for kind in kinds:
+            for fld in fields + ["kind"]:
+                basef = {"object": {"path": "a.o"}, "archive": {"path": "l.a"}, "pad": {"kind": "pad", "pad_amount": 4, "section": ".text"},
+                         "linker_offset": {"kind": "linker_offset", "linker_offset_name": "m", "section": ".text"},
+                         "group": {"kind": "group", "files": [{"path": "q.o"}]}, None: {"path": "n.o"}}[kind]
+                f = dict(basef)
+                if kind in ("object", "archive"):
+                    f["kind"] = kind
+                f[fld] = None
+                d = base_valid_doc()
+                d["segments"][1]["files"][1]["files"] = [f]
+                add(d, "file-null")
+        # segments: 2^4 address subsets (+ null on each)
+        addr = {"fixed_vram": 0x80001000, "fixed_symbol": "sym", "follows_segment": "boot", "vram_class": "cls"}
+        for mask in range(16):
+            d = base_valid_doc()
+            seg = d["segments"][1]
+            seg.pop("vram_class", None)
+            for i, k in enumerate(addr):
+                if mask >> i & 1:
+                    seg[k] = addr[k]
+            add(d, "segment-address")
+        # classes: 2^3 placement subsets
+        place = {"fixed_vram": 0x80200000, "fixed_symbol": "sym", "follows_classes": ["cls"]}
+        for mask in range(8):
+            for empty_follow in (False, True):
+                d = base_valid_doc()
+                c2 = {"name": "c2"}
+                for i, k in enumerate(place):
+                    if mask >> i & 1:
+                        c2[k] = [] if (k == "follows_classes" and empty_follow) else place[k]
+                d["vram_classes"].append(c2)
+                add(d, "class-placement")
+        # unknown key / every field absent-null-value / empty cond lists, at every record level
+        d0 = base_valid_doc()
+        d0["segments"][0]["files"].append({"kind": "pad", "pad_amount": 4, "section": ".text"})
+        for lab, _ in record_sites(d0):
+            d = copy.deepcopy(d0)
+            rec = dict(record_sites(d))[lab]
+            rec["zz_unknown"] = 1
+            add(d, "unknown-key:" + lab)
+            for k in list(dict(record_sites(d0))[lab].keys()):
+                for how in ("null", "absent", "empty"):
+                    d = copy.deepcopy(d0)
+                    rec = dict(record_sites(d))[lab]
+                    if how == "null":
+                        rec[k] = None
+                    elif how == "absent":
+                        del rec[k]
+                    else:
+                        v = rec[k]
+                        if isinstance(v, str):
+                            rec[k] = ""
+                        elif isinstance(v, list):
+                            rec[k] = []
+                        else:
+                            continue
+                    add(d, "%s:%s.%s" % (how, lab, k))
+            if lab in ("segment", "file", "file_in_group", "gp_info", "symbol_assignment", "required_symbol", "assert"):
+                for ck in COND_KEYS:
+                    for val in ([], None, [["k", "v"]]):
+                        d = copy.deepcopy(d0)
+                        rec = dict(record_sites(d))[lab]
+                        rec[ck] = val
+                        add(d, "cond:%s.%s" % (lab, ck))
+        # every optional settings / segment field x {null, value}
+        sett_fields = {"base_path": "b", "linker_symbols_style": "makerom", "hardcoded_gp_value": 16, "d_path": "x.d", "target_path": "t",
+                       "symbols_header_path": "h.h", "symbols_header_type": "u32", "symbols_header_as_array": False,
+                       "sections_allowlist": [".a"], "sections_allowlist_extra": [".b"], "sections_denylist": [".c"],
+                       "discard_wildcard_section": False, "single_segment_mode": False, "partial_scripts_folder": "p",
+                       "partial_build_segments_folder": "q", "alloc_sections": [".text"], "noload_sections": [".bss"], "subalign": 4,
+                       "segment_start_align": 8, "segment_end_align": 8, "section_start_align": 8, "section_end_align": 8,
+                       "sections_start_alignment": {".text": 4}, "sections_end_alignment": {".text": 4}, "wildcard_sections": False,
+                       "fill_value": 1, "sections_subgroups": {".text": [".init"]}}
+        for k, val in sett_fields.items():
+            for v2 in (None, val):
+                for level in ("settings", "segment"):
+                    if level == "segment" and k not in OVER_NAMES and k not in ("dir",):
+                        continue
+                    d = base_valid_doc()
+                    d["segments"][0].pop("gp_info", None)
+                    if level == "settings":
+                        d["settings"] = {k: copy.deepcopy(v2)}
+                    else:
+                        d["segments"][0][k] = copy.deepcopy(v2)
+                    add(d, "%s.%s=%s" % (level, k, "null" if v2 is None else "value"))
+        # gp_info x hardcoded_gp_value x section membership
+        for hard in (False, True):
+            for sec in (None, ".sdata", ".nosuch", ""):
+                for lists in (None, [".text", ".nosuch"]):
+                    d = base_valid_doc()
+                    if hard:
+                        d["settings"]["hardcoded_gp_value"] = 0x80008000
+                    gp = {}
+                    if sec is not None:
+                        gp["section"] = sec
+                    d["segments"][0]["gp_info"] = gp
+                    if lists:
+                        d["segments"][0]["alloc_sections"] = lists
+                    add(d, "gp")
+        for dp, tp in itertools.product((None, "a.d"), (None, "t.elf")):
+            d = base_valid_doc()
+            d["settings"] = {}
+            if dp:
+                d["settings"]["d_path"] = dp
+            if tp:
+                d["settings"]["target_path"] = tp
+            add(d, "d_path/target_path")
+        for segs in ([], [{"name": "x", "files": []}], [{"name": "", "files": [{"path": "a.o"}]}], [{"name": "x", "files": [{"path": ""}]}]):
+            add({"segments": segs}, "empty")
+        return cases
+
+
+OVER_NAMES = {"alloc_sections", "noload_sections", "subalign", "segment_start_align", "segment_end_align", "section_start_align",
+              "section_end_align", "sections_start_alignment", "sections_end_alignment", "wildcard_sections", "fill_value",
+              "sections_subgroups"}
+
+
 class C17(Property):
     pid = "C17"
     title = "top-level statements and _gp"
@@ -587,6 +843,72 @@ class C18(Property):
             cases.append({"id": "tl%d" % i, "seed": i, "stream": "lattice:tail", "doc": doc, "opts": [],
                           "mode": "partial" if kind == "partial" else "normal", "version_comment": False})
         return cases
+
+
+class C15(Property):
+    pid = "C15"
+    title = "determinism"
+    rule = ("valid-stream documents with at least two entries in hash-based fields (section_order incl. several sections moved to one "
+            "destination and sections outside the lists, alignment maps, sub-groups, keep lists, options); every case is generated 3x in one "
+            "process, once more in each of two fresh processes, and once with the distinct options supplied in another order; "
+            "non-trivial when some section_order has two or more entries")
+    quick_n = 500
+
+    def profile(self, r):
+        return Profile(p_section_order=0.6, p_subgroups=0.5, p_align=0.5, p_keep=0.4, p_custom_lists=0.4, p_missing_key=0.0,
+                       p_braces=0.5, p_pad=0.05, p_offset=0.05)
+
+    def tweak(self, r, c):
+        c["repeat"] = 3
+        # several sections (some of them in no list) moved into one destination
+        for s in c["doc"].get("segments", []):
+            for f in s.get("files", []):
+                if isinstance(f, dict) and "path" in f and r.chance(0.35):
+                    dest = r.pick([".text", ".data", ".bss", ".rodata"])
+                    keys = r.sample([".init", ".fini", ".ctor", ".text.hot", ".zz", ".aa", ".sbss", ".sdata", "Xsec"], 2 + r.below(3))
+                    f["section_order"] = {k: dest for k in keys if k != dest}
+
+        # option values that look like markers themselves: expansion must not depend on option order
+        if r.chance(0.3):
+            c["opts"] = [o for o in c["opts"] if o[0] not in ("bdir", "ver")]
+            pair = [["bdir", "{ver}-rel"], ["ver", r.pick(["us", "jp"])]]
+            c["opts"] += pair if r.chance(0.5) else pair[::-1]
+            fs = [f for f in all_files(c["doc"]) if "path" in f]
+            if fs:
+                r.pick(fs)["path"] = "{bdir}/x{ver}.o"
+            c["doc"].setdefault("settings", {})["base_path"] = r.pick(["build/{bdir}", "{ver}/{bdir}", "b"])
+
+    def nontrivial(self, c):
+        return any(len(f.get("section_order") or {}) >= 2 for f in all_files(c["doc"]))
+
+    def evaluate(self, w, c):
+        from .engine import impl_request
+        from . import run
+        impl, v = w.eval(c, [self.pid])
+        res = self.judge(c, impl, v, w)
+        if res["status"] not in ("ok", "corr") or impl.get("outcome") != "ok":
+            return res
+        if not impl.get("repeat_same", True):
+            res.update(status="violation", why="repeated generation in one process gave different outputs")
+            return res
+        if not hasattr(w, "extra_h"):
+            w.extra_h = [run.Harness(), run.Harness()]
+        for k, h in enumerate(w.extra_h):
+            impl2 = h.run(impl_request(c))
+            if not same_outputs(impl, impl2):
+                res.update(status="violation", why="a fresh process generated different outputs: " +
+                           ",".join(x for x in OUT_KEYS if impl.get(x) != impl2.get(x)))
+                return res
+        # the option *map* decides, not the order in which distinct options were supplied
+        last = {}
+        for k, val in c["opts"]:
+            last[k] = val
+        for perm in ([[k, last[k]] for k in sorted(last, reverse=True)], [[k, last[k]] for k in sorted(last)]):
+            impl3 = w.h.run(impl_request(dict(c, opts=perm)))
+            if not same_outputs(impl, impl3):
+                res.update(status="violation", why="supplying the same options in another order changed the outputs", permuted_opts=perm)
+                break
+        return res
 
 
 OVER = ["alloc_sections", "noload_sections", "subalign", "segment_start_align", "segment_end_align",
@@ -678,4 +1000,4 @@ class C08(Property):
         return cases
 
 
-PROPS = {p.pid: p for p in [C06(), C07(), C08(), C12(), C13(), C14(), C17(), C18()]}
+PROPS = {p.pid: p for p in [C06(), C07(), C08(), C12(), C13(), C14(), C15(), C16(), C17(), C18()]}
